@@ -7,6 +7,7 @@ import (
 	"math/rand"
 	"sort"
 	"sync"
+	"sync/atomic"
 	"testing"
 
 	"github.com/gauss-project/aurorafs/pkg/aurora"
@@ -32,21 +33,23 @@ type tpeer struct {
 
 // world = one real Kad, the model of the live connections, and what p2p does.
 type world struct {
-	t       *testing.T
-	mu      sync.Mutex // guards the model (the manage-loop test touches it from mock callbacks)
-	base    []byte
-	rig     *kadrig.Rig
-	peers   []*tpeer
-	byAddr  map[string]*tpeer
-	byUnder map[string]*tpeer
-	live    map[int]bool // connections the topology was told about / made itself and not since closed
-	protect map[int]bool
-	ownBoot bool
-	over    int
-	dial    func(p *tpeer) (*p2p.Peer, error) // what p2p.Connect answers (sequential test: set per event)
-	st      map[string]int64
-	hist    []string
-	known   map[string]int // known set seen by the last audit
+	t                       *testing.T
+	mu                      sync.Mutex // guards the model (the manage-loop test touches it from mock callbacks)
+	base                    []byte
+	rig                     *kadrig.Rig
+	peers                   []*tpeer
+	byAddr                  map[string]*tpeer
+	byUnder                 map[string]*tpeer
+	live                    map[int]bool // connections the topology was told about / made itself and not since closed
+	protect                 map[int]bool
+	ownBoot                 bool
+	over                    int
+	dial                    func(p *tpeer) (*p2p.Peer, error) // what p2p.Connect answers (sequential test: set per event)
+	st                      map[string]int64
+	hist                    []string
+	known                   map[string]int  // known set seen by the last audit
+	noGossip                map[string]bool // peers to which gossip (discovery.BroadcastPeers) fails
+	gossipMsgs, gossipFails int64
 }
 
 func (w *world) addPeer(rng *rand.Rand, bin int, boot bool) *tpeer {
@@ -101,8 +104,28 @@ func newWorld(t *testing.T, rng *rand.Rand, st map[string]int64, ownBoot bool, o
 		}
 		return nil
 	}
+	w.noGossip = map[string]bool{}
+	// (called from background goroutines of the topology: touches nothing but the two atomics and
+	// the noGossip map, which is only written under the lock)
+	opts.Broadcast = func(_ context.Context, addressee boson.Address, _ ...boson.Address) error {
+		atomic.AddInt64(&w.gossipMsgs, 1)
+		w.mu.Lock()
+		fail := w.noGossip[string(addressee.Bytes())]
+		w.mu.Unlock()
+		if fail {
+			atomic.AddInt64(&w.gossipFails, 1)
+			return errors.New("stream reset")
+		}
+		return nil
+	}
 	w.rig = kadrig.New(t, opts)
 	return w
+}
+
+func (w *world) gossipFailsFor(p *tpeer) bool {
+	w.mu.Lock()
+	defer w.mu.Unlock()
+	return w.noGossip[string(p.addr)]
 }
 
 func (w *world) count(k string) {
@@ -285,6 +308,11 @@ func (w *world) inbound(c *obs.Case, p *tpeer, force, usePick bool) {
 			admitted = false
 			// libp2p: _ = s.Disconnect(overlay, ...) -> the topology is notified
 			k.Disconnected(kadrig.Peer(p.addr, mode(p)), "unable to signal connection notifier")
+		case w.gossipFailsFor(p):
+			// telling the new peer about our peers failed: Connected reports it, libp2p closes the connection
+			admitted = false
+			via = "gossip-failure"
+			k.Disconnected(kadrig.Peer(p.addr, mode(p)), "unable to signal connection notifier")
 		default:
 			w.t.Fatalf("harness: Connected: %v", err)
 		}
@@ -300,6 +328,9 @@ func (w *world) inbound(c *obs.Case, p *tpeer, force, usePick bool) {
 	} else {
 		p.last = "inbound-rejected"
 		w.st["inbound_rejected_by_"+via]++
+	}
+	if via == "gossip-failure" {
+		return // refused for a reason that has nothing to do with saturation
 	}
 	if w.ownBoot {
 		return // a boot node makes room by dropping a random peer instead of refusing: clause not judged
@@ -344,7 +375,7 @@ func TestHistories(t *testing.T) {
 		"oversaturated = the project's definition: at least BinMaxPeers (rounded up to a multiple of 5; 20 for a boot node) connected peers of the bin whose last reported status is public, and bin below the potential depth; the potential depth is read from a second real Kad fed with the known set",
 		"p2p.Disconnect notifies the topology (Disconnected) like libp2p does and answers ErrPeerNotFound for a peer without a live connection",
 		"boot-node inbound connections are not delivered to the topology by libp2p and are not generated")
-	n := run.N(300, 4000)
+	n := run.N(300, 2500)
 	st := map[string]int64{}
 	for i := 0; i < n; i++ {
 		c := run.Begin(fmt.Sprintf("hist/%d", i), nil)
@@ -448,6 +479,46 @@ func TestHistories(t *testing.T) {
 					evs["outbound"] = true
 					w.markReachable(rng, p)
 				}
+			case r < 52 && rng.Intn(4) == 0: // connection made, but the gossip to the new peer fails
+				p := w.pick(rng, func(p *tpeer) bool { return notLive(p) && !p.boot })
+				if p == nil || w.eligibleInBin(0)+w.eligibleInBin(1)+w.eligibleInBin(2)+w.eligibleInBin(3) == 0 {
+					continue // nothing to gossip about: no message would be sent
+				}
+				w.mu.Lock()
+				w.noGossip[string(p.addr)] = true
+				w.mu.Unlock()
+				if rng.Intn(2) == 0 {
+					before := st["inbound_rejected_by_gossip-failure"]
+					w.inbound(c, p, rng.Intn(5) == 0, false)
+					if st["inbound_rejected_by_gossip-failure"] != before {
+						evs["inbound-gossip-failure"] = true
+					}
+				} else {
+					w.dial = func(q *tpeer) (*p2p.Peer, error) {
+						pr := kadrig.Peer(q.addr, mode(q))
+						return &pr, nil
+					}
+					a, err := k.GetAuroraAddress(boson.NewAddress(p.addr))
+					if err != nil {
+						t.Fatalf("harness: addressbook: %v", err)
+					}
+					err = k.Connection(context.Background(), a)
+					w.dial = nil
+					if err == nil {
+						// the topology found no reachable peer to gossip about after all: a normal outbound connection
+						w.live[p.idx] = true
+						p.last = "outbound"
+					} else {
+						p.last = "dial-fail-gossip"
+						st["outbound_dropped_after_gossip_failure"]++
+						evs["outbound-gossip-failure"] = true
+					}
+					w.register(p)
+					w.note("outbound-dial(p%d) with failing gossip -> %v", p.idx, err)
+				}
+				w.mu.Lock()
+				delete(w.noGossip, string(p.addr))
+				w.mu.Unlock()
 			case r < 52: // failed dial
 				p := w.pick(rng, notLive)
 				if p == nil {
@@ -611,6 +682,8 @@ func TestHistories(t *testing.T) {
 			}
 		}
 		run.StatMax("max/live_peers_in_one_bin", int64(maxFill))
+		st["gossip_messages"] += atomic.LoadInt64(&w.gossipMsgs)
+		st["gossip_failures"] += atomic.LoadInt64(&w.gossipFails)
 		w.rig.Close(t)
 		ks := make([]string, 0, len(evs))
 		for e := range evs {
